@@ -904,7 +904,7 @@ impl Check for C03 {
         "C03"
     }
     fn sweeps(&self, tier: Tier) -> Vec<Box<dyn Sweep>> {
-        let mut v: Vec<Box<dyn Sweep>> = vec![
+        let v: Vec<Box<dyn Sweep>> = vec![
             Box::new(Shapes),
             Box::new(Strings { n: tier.pick(4, 5), alpha: SIGMA.to_vec(), label: "sigma" }),
             Box::new(Strings { n: tier.pick(5, 7), alpha: sub_alphabet(), label: "numeric-core" }),
@@ -916,7 +916,6 @@ impl Check for C03 {
             Box::new(SpaceSweep { model: protocol(tier.pick(6, 8)) }),
             Box::new(SpaceSweep { model: protocol_from(tier.pick(6, 8), true) }),
         ];
-        v.truncate(8);
         v
     }
     fn meta(&self, tier: Tier) -> Meta {
